@@ -71,8 +71,8 @@ PROPS = {
     },
     "C13": {
         "pkg": "session", "level": "exploration",
-        "quick": {"stages": [st("^TestC13Termination", 600), st("^TestC13WebSocketSend", 3, shrinktime="40s"), st("^TestC13WebSocketCancel", 4, shrinktime="40s"), st("^TestC13RouterInboundClose", 150), st("^TestC13SQLiteBlockedInserter", 6)]},
-        "thorough": {"stages": [st("^TestC13Termination", 15000, shards=10, timeout=3000), st("^TestC13Termination", 2000, shards=2, race=True, timeout=3000), st("^TestC13WebSocketSend", 20, shards=1, shrinktime="60s"), st("^TestC13WebSocketCancel", 30, shards=1, shrinktime="60s"), st("^TestC13RouterInboundClose", 3000, shards=2), st("^TestC13SQLiteBlockedInserter", 60, shards=1)]},
+        "quick": {"stages": [st("^TestC13Termination", 600), st("^TestC13WebSocketSend", 3, shrinktime="40s"), st("^TestC13WebSocketCancel", 4, shrinktime="40s"), st("^TestC13RouterInboundClose", 150), st("^TestC13SQLiteBlockedInserter", 6), st("^TestC13LargeAnswerCut", 120, shards=2)]},
+        "thorough": {"stages": [st("^TestC13Termination", 15000, shards=10, timeout=3000), st("^TestC13Termination", 2000, shards=2, race=True, timeout=3000), st("^TestC13WebSocketSend", 20, shards=1, shrinktime="60s"), st("^TestC13WebSocketCancel", 30, shards=1, shrinktime="60s"), st("^TestC13RouterInboundClose", 3000, shards=2), st("^TestC13SQLiteBlockedInserter", 60, shards=1), st("^TestC13LargeAnswerCut", 3000, shards=4, timeout=3000)]},
     },
     "C20": {
         "pkg": "core", "level": "exploration",
@@ -81,8 +81,8 @@ PROPS = {
     },
     "C16": {
         "pkg": "handlers", "level": "exploration",
-        "quick": {"stages": [st("^TestC16", 800), st("^TestC16", 300, pkg="sqlite")]},
-        "thorough": {"stages": [st("^TestC16", 20000, shards=10, timeout=3000), st("^TestC16", 5000, shards=6, pkg="sqlite", timeout=3000)]},
+        "quick": {"stages": [st("^TestC16", 800), st("^TestC16SQLiteHandlerReplies", 300, pkg="sqlite"), st("^TestC16SQLiteRepublishAfterStall", 24, shards=2, pkg="sqlite")]},
+        "thorough": {"stages": [st("^TestC16", 20000, shards=10, timeout=3000), st("^TestC16SQLiteHandlerReplies", 5000, shards=6, pkg="sqlite", timeout=3000), st("^TestC16SQLiteRepublishAfterStall", 400, shards=4, pkg="sqlite", timeout=3000)]},
     },
     "C07": {
         "pkg": "handlers", "level": "exploration",
